@@ -113,6 +113,13 @@ def run(facts, cg):
                         if why:
                             finding(b.q, 'archive:' + fld, 'Archive.%s is not the decoded %s as recorded: %s (%s)' % (fld, src, why, show(t)[:90]))
                     for fld, src in MENTIONS.items():
+                        # a required sub-message that is absent makes the archive invalid; it is not "all defaults"
+                        if fld in d:
+                            for nd in walk(d[fld]):
+                                if nd[0] == 'call' and nd[1].split('::')[-1] in ('unwrap_or_default', 'unwrap_or', 'unwrap_or_else') and nd[2] and \
+                                        isinstance(nd[2][0], tuple) and nd[2][0][0] == 'field' and nd[2][0][2] == src:
+                                    finding(b.q, 'absent-defaulted:' + fld, 'a dictionary without %s is opened with default values instead of being refused as an invalid '
+                                            'archive: the clone goes ahead (creates / overwrites the output) and fails later, or mis-reads the chunks' % src)
                         if fld in d and not has_field(d[fld], src):
                             finding(b.q, 'archive:' + fld, 'Archive.%s is not derived from the decoded %s (%s)' % (fld, src, show(d[fld])[:90]))
                     instances.append({'rule': 'R-READER-WIRING(archive)', 'function': b.q, 'at': st['loc'], 'obligations': len(PLAIN) + len(MENTIONS), 'fields': rows})
@@ -184,6 +191,58 @@ def run(facts, cg):
                         finding(b.q, 'enum-dispatch:' + str(vname), 'could not relate the construction of %s to a value of the recorded enum (cannot decide)' % vname)
                     elif sel != set(want):
                         finding(b.q, 'enum-value:' + str(vname), '%s is built for recorded enum value(s) %s; the format assigns it %s' % (vname, sorted(sel), want))
+    # ---- R-ACCEPT: what the reader refuses.  The writer accepts min = avg = max and a window as large as the largest chunk
+    # (cli.rs refuses only `min > avg`, `max < avg`); a reader whose validation refuses the boundary (`>=` for `>`, a half-open
+    # range for a closed one) rejects archives this very tool writes.  For every comparison of two recorded chunker parameters:
+    # find the edge that leads to an error on every path and read off whether the two being equal takes it.
+    from .r_steps import exit_outcomes_from
+    PARAMS = ('min_chunk_size', 'max_chunk_size', 'rolling_hash_window_size')
+    NEG = {'Lt': 'Ge', 'Le': 'Gt', 'Gt': 'Le', 'Ge': 'Lt', 'Eq': 'Ne', 'Ne': 'Eq'}
+    n_acc = 0
+
+    def params_of(t):
+        return {n[2] for n in walk(t) if n[0] == 'field' and n[2] in PARAMS}
+    for b in facts.bodies.values():
+        if b.generated or not b.id.startswith('bitar::archive::'):
+            continue
+        for bi in b.live:
+            sw = b.blocks[bi]['term']
+            for st in b.blocks[bi]['stmts']:
+                if st['k'] != 'assign' or st['pl']['p'] or st['rv']['k'] != 'binop' or st['rv']['op'] not in NEG:
+                    continue
+                pa = params_of(simplify(T.resolve_env(simplify(T.of_operand(b, st['rv']['a'])))))
+                pb = params_of(simplify(T.resolve_env(simplify(T.of_operand(b, st['rv']['b'])))))
+                if len(pa) != 1 or len(pb) != 1 or pa == pb:
+                    continue
+                if sw['k'] != 'switch' or sw['op']['k'] not in ('copy', 'move') or sw['op']['pl']['l'] != st['pl']['l']:
+                    continue
+                n_acc += 1
+                t_edge, f_edge = sw['otherwise'], dict(zip(sw['vals'], sw['targets'])).get(0)
+                rej = None
+                if exit_outcomes_from(b, t_edge) <= {'Err'}:
+                    rej = st['rv']['op']
+                elif f_edge is not None and exit_outcomes_from(b, f_edge) <= {'Err'}:
+                    rej = NEG[st['rv']['op']]
+                instances.append({'rule': 'R-ACCEPT', 'function': b.q, 'at': st['loc'], 'compares': sorted(pa | pb), 'refused_when': rej})
+                if rej in ('Ge', 'Le', 'Eq'):
+                    finding(b.q, 'boundary-refused:' + '/'.join(sorted(pa | pb)), 'the validation at %s refuses an archive whose %s are equal; the writer accepts and records '
+                            'such a configuration (min = avg = max), so archives made by this tool are rejected' % (st['loc'], ' and '.join(sorted(pa | pb))))
+            # the same test as a range: `(lo..hi).contains(&x)` leaves out x == hi, `(lo..=hi)` does not
+            if sw['k'] == 'call' and 'q' in sw['callee'] and callee_q(sw).split('::')[-1] == 'contains' and 'ops::range::Range' in callee_q(sw) \
+                    and len(sw['args']) == 2:
+                px = params_of(simplify(T.resolve_env(simplify(T.of_operand(b, sw['args'][1])))))
+                rng = simplify(T.resolve_env(simplify(T.of_operand(b, sw['args'][0]))))
+                pr = params_of(rng)
+                if len(px) == 1 and pr and not (px & pr):
+                    n_acc += 1
+                    half_open = callee_q(sw).startswith('core::ops::range::Range::') or '::Range<' in callee_q(sw) or \
+                        any(n[0] == 'agg' and n[1] == 'core::ops::range::Range' for n in walk(rng))
+                    instances.append({'rule': 'R-ACCEPT', 'function': b.q, 'at': sw['loc'], 'compares': sorted(px | pr), 'half_open_range': half_open})
+                    if half_open:
+                        finding(b.q, 'boundary-refused:' + '/'.join(sorted(px | pr)), 'the validation at %s tests %s with a half-open range: the value equal to the upper end is '
+                                'refused, but the writer accepts and records it (min = avg = max)' % (sw['loc'], ' and '.join(sorted(px | pr))))
+    if n_acc < 2:
+        finding('-', 'floor-accept', 'expected the comparisons of min / window with the max chunk size in the reader\'s validation, found %d (cannot decide)' % n_acc)
     if n_arch < 1 or n_filter < 1 or n_cfg < 3 or n_comp < 1:
         finding('-', 'floor', 'expected the Archive aggregate, the FilterConfig and three Config variants and a Compression built from the dictionary, '
                 'found %d/%d/%d/%d (cannot decide)' % (n_arch, n_filter, n_cfg, n_comp))
